@@ -1,0 +1,20 @@
+//go:build verif
+
+package git
+
+import "regexp"
+
+// VerifRegexps exposes the compiled patterns of log_parser.go / changelog.go to the verification
+// harness in /verif (build tag `verif`). Add-only; not compiled into normal builds.
+func VerifRegexps() map[string]*regexp.Regexp {
+	return map[string]*regexp.Regexp{
+		"rev":         revReg,
+		"author":      authorReg,
+		"date":        dateReg,
+		"changes":     changesReg,
+		"complexMove": complexMoveReg,
+		"basicMove":   basicMvReg,
+		"changeMode":  changeModeReg,
+		"changeLog":   regexp.MustCompile(changeLogRegex),
+	}
+}
